@@ -34,6 +34,7 @@ MAP = {
     "TCPSink acknowledges": ["C16"],
     "stops the timers of all": ["C17", "C16"],
     "ignores outdated ACKs": ["C16"],
+    "Wire keeps each entry": ["C10"],
 }
 
 
